@@ -398,7 +398,11 @@ class Body:
             ci += 1
 
     # R2: assert!(c, fmt..) -> assert(c)
-    def r2_assert(self):
+    def r2_assert(self, as_guard=False):
+        """R2: assert!(c, ..) -> assert(c)  (the runtime assertion becomes a proof obligation).
+        R2g (as_guard): assert!(c, ..) -> if !(c) { guard_failed(); }  where guard_failed() is a trusted stub that does not return
+        (`ensures false`): the runtime guard is kept as a guard - partial correctness: IF the function returns, the guard held - so
+        that the contract can say what the guard must establish instead of demanding it from the caller."""
         code = self.code()
         for ci in range(len(code) - 2):
             t = self.toks[code[ci]]
@@ -419,6 +423,14 @@ class Body:
                         break
                 a = t[2]
                 bang = self.toks[code[ci + 1]]
+                if as_guard:
+                    cond_hi = self.toks[code[comma - 1]][3] if comma is not None else self.toks[code[e - 1]][3]
+                    cond_txt = self.text[self.toks[code[ci + 3]][2]:cond_hi]
+                    stmt_end = self.toks[code[e]][3]
+                    self.edits.append((a, stmt_end - a, 'if !(%s) { guard_failed(); }' % cond_txt.strip()))
+                    self.rewrites.append(dict(rule='R2g assert-as-guard', line=self.line(a),
+                                              what='%s!(c, ..) -> if !(c) { guard_failed() }: the runtime guard stays a guard (a failed guard does not return)' % t[1]))
+                    continue
                 # delete 'debug_' prefix and '!'
                 self.edits.append((a, bang[3] - a, 'assert'))
                 if comma is not None:
